@@ -27,6 +27,7 @@ Round 6: (m) only Move.pack and the per-element pad of Sequence.pack set the cur
 packed without the pad; class-wide align rules decided on paths.
 Round 7: a Move is never switched off at class creation (a neighbour's alignment with an unexamined
 reference point is no proof that the cursor is aligned).
+Round 8: includes the selector-configuration rule of C08 (class-wide align on both sides).
 """
 import ast
 import copy
